@@ -653,6 +653,31 @@ func genStmt0(r *Rand, a []KV, want bool, depth int, top bool) Stmt {
 			{Op: "any", Sel: sel, Kids: []Stmt{{Op: "==", Sel: ".", Val: ptr(vInt(max + 1))}}},
 			{Op: "==", Sel: sel, Val: ptr(Val{K: "list", L: append(append([]Val{}, v.L...), vInt(0))})},
 		})
+	case "bytes":
+		// a byte string: compared whole, indexed (each byte is an integer; negative indexes count
+		// from the end), sliced
+		if n := len(v.X); n > 0 && r.Chance(0.7) {
+			i := r.Intn(n)
+			form := Pick(r, []string{fmt.Sprintf("[%d]", i), fmt.Sprintf("[-%d]", n-i), "[-1]", fmt.Sprintf("[%d:]", i), fmt.Sprintf("[-%d:]", n-i), fmt.Sprintf("[:%d]", i+1)})
+			if got, ok := resolveSel(sel+form, Val{K: "map", M: []KV{kv}}); ok {
+				switch got.K {
+				case "int":
+					if want {
+						return Pick(r, []Stmt{{Op: "==", Sel: sel + form, Val: ptr(got)}, {Op: ">=", Sel: sel + form, Val: ptr(got)}, {Op: "<", Sel: sel + form, Val: ptr(vInt(got.I + 1))}})
+					}
+					return Pick(r, []Stmt{{Op: "==", Sel: sel + form, Val: ptr(vInt(got.I + 1))}, {Op: ">", Sel: sel + form, Val: ptr(got)}})
+				case "bytes":
+					if want {
+						return Stmt{Op: "==", Sel: sel + form, Val: ptr(got)}
+					}
+					return Stmt{Op: "==", Sel: sel + form, Val: ptr(vBytes(append(append([]byte{}, got.X...), 7)))}
+				}
+			}
+		}
+		if want {
+			return Stmt{Op: "==", Sel: sel, Val: ptr(v)}
+		}
+		return Stmt{Op: "==", Sel: sel, Val: ptr(vBytes(append(append([]byte{}, v.X...), 0)))}
 	case "map":
 		x, _ := v.get("x")
 		y, _ := v.get("y")
@@ -1587,6 +1612,26 @@ func (g *wgen) sweep(c, foreign *chain, vlabels []string) {
 			}
 		}
 		labels = append(labels, d.Label)
+	}
+	// an expiry that passes WHILE the executor's hook is at work (the check starts half a second
+	// before it, the hook takes a second): decided by the instant the call returns
+	var exps []int64
+	addExp := func(b *int64) {
+		if b != nil && *b < 9_000_000_000 && *b > -9_000_000_000 {
+			exps = append(exps, *b*1_000_000_000)
+		}
+	}
+	addExp(c.inv.Exp)
+	for _, d := range c.dlgs {
+		addExp(d.Exp)
+	}
+	sort.Slice(exps, func(i, j int) bool { return exps[i] < exps[j] })
+	for _, x := range exps {
+		if x-500_000_000 > g.now && r.Chance(0.7) {
+			g.tickTo(x - 500_000_000)
+			g.emit(WStep{Op: "check", Check: &CheckSpec{Inv: c.inv.Label, Hook: "identity", HookSleepNS: 1_000_000_000}})
+			break // (the clock has moved past this bound: the ordinary sweep continues from here)
+		}
 	}
 	var visits []int64
 	for _, b := range bounds {
